@@ -235,7 +235,7 @@ def rand_case(draw):
     api = draw(st.sampled_from(READ_APIS))
     verify = draw(st.sampled_from([None, False]))
     cols = draw(st.one_of(st.none(), st.lists(st.sampled_from([f["name"] for f in fields] + ["fid"]), min_size=1, max_size=2, unique=True)))
-    return {"kind": "rand", "fields": fields, "files": files, "filter": flt, "api": api, "verify": verify, "columns": cols, "cross": cross, "one_txn": draw(st.integers(0, 2)) == 0 and any(files),
+    return {"kind": "rand", "fields": fields, "files": files, "filter": flt, "api": api, "verify": verify, "columns": cols, "cross": cross, "one_txn": draw(st.integers(0, 2)) == 0 and any(files), "delete_one": draw(st.booleans()),
             # the handle that is read through: the creating one, a fresh load_table, or create_table() on the existing table with a schema that
             # DESCRIBES it (same names / types) but numbers its fields differently (another application's copy of the schema) - the persisted
             # schema stays authoritative, so the answers must not change; 'last_via' = the last file is appended through that handle
@@ -276,6 +276,16 @@ def check_rand(case):
             except Exception as e:  # noqa
                 raise SetupRejected(f"{type(e).__name__}: {e}") from e
             out["labels"].append("files-from-one-transaction")
+            if case.get("delete_one") and sum(1 for rows in case["files"] if rows) >= 2:
+                # a partial delete: the manifest that lists all the files is REWRITTEN with the survivors (their statistics are carried over)
+                try:
+                    dfs = sorted(t._get_all_data_files(), key=lambda df: df.file_path)
+                    with t.new_transaction() as txd:
+                        txd.delete_files([dfs[0].file_path])
+                        txd.commit()
+                    out["labels"].append("manifest-rewritten-by-partial-delete")
+                except Exception as e:  # noqa
+                    raise SetupRejected(f"{type(e).__name__}: {e}") from e
         else:
             nf = len(case["files"])
             for fid, rows in enumerate(case["files"]):
